@@ -76,6 +76,17 @@ template <typename S> static void traits(S&& s) {
   if constexpr (b == blocking_kind::always) VF_ASSERT(R.total() == 1, "sender declares blocking always but had not completed when start() returned");
   if constexpr (!sd) VF_ASSERT(R.n_done == 0, "sender declares sends_done == false but completed with done");
 }
+#include <unifex/stop_when.hpp>
+extern "C" void h_traits_affine() {      // is_always_scheduler_affine must not be claimed when a non-affine child can complete last
+  async_manual_reset_event evt;
+  using affine_t = decltype(evt.async_wait());
+  static_assert(sender_traits<affine_t>::is_always_scheduler_affine);
+  constexpr bool sw1 = sender_traits<decltype(stop_when(std::declval<affine_t>(), fleaf{}))>::is_always_scheduler_affine;
+  constexpr bool sw2 = sender_traits<decltype(stop_when(fleaf{}, std::declval<affine_t>()))>::is_always_scheduler_affine;
+  VF_ASSERT(!sw1 && !sw2, "stop_when declares is_always_scheduler_affine although one of its children is not affine (it completes on whichever child finishes last)");
+  constexpr bool f1 = sender_traits<decltype(finally(fleaf{}, std::declval<affine_t>()))>::is_always_scheduler_affine;
+  (void)f1;
+}
 extern "C" void h_traits_just() { traits(just(1)); }
 extern "C" void h_traits_then() { traits(then(just(1), [](int v) noexcept { return v; })); }
 extern "C" void h_traits_let() { traits(let_value(just(2), [](int& v) noexcept { return just(v + 1); })); }
